@@ -218,6 +218,7 @@ func (this *Conn) grpcDialOptions() []grpc.DialOption {
 	} else {
 		options = append(options, grpc.WithInsecure())
 	}
+	options = append(options, this.verifDialOptions()...)
 	
 	return options
 }
